@@ -584,6 +584,9 @@ func confirm(b *build, path, sig string) (bool, string) {
 }
 
 func doReplay(path string) int {
+	if ap, err := filepath.Abs(path); err == nil {
+		path = ap
+	}
 	data, err := os.ReadFile(path)
 	if err != nil {
 		die(2, "%v", err)
